@@ -1,5 +1,6 @@
 import SigHook.Model.RegistryConc
 import SigHook.Lemmas.RegistrySeq
+import SigHook.Lemmas.RegistryConcHand
 import SigHook.Props.C01
 /-!
 # C02 — Each delivery runs exactly one consistent snapshot of the actions, in order
@@ -179,5 +180,103 @@ def demoSys : Sys := Sys.init [] [[.register true 10 100, .register true 10 101]
 example : ((runSched demoEnv demoSys
       (List.replicate 24 0 ++ List.replicate 11 1 ++ List.replicate 12 0)).2.filterMap
         (fun o => match o.ev with | .run t => some t | _ => none)) = [100] := by decide
+
+
+/-! ## Linearizability, for every reachable state of the concurrent model
+
+`cur s` is the registry contents reachable from the published `data` pointer. The three theorems
+below say: (1) `cur` changes only at a mutator's `data.swap`, and then to exactly what the
+sequential specification (`plan`, the L5 functions split into steps) makes of the contents that
+were current *at that swap* — no update is ever computed from a stale snapshot and none is lost;
+(2) a delivery's plan is fixed at its `data.load()` step and is the action list of `cur` at that
+instant; (3) from then on it executes exactly that list. Hence the run list of a delivery is the
+action list of one registry state that was current during the delivery, and every operation
+takes effect at one instant between its call and its return (its swap). -/
+
+open SigHook.Registry (Disp Env)
+open SigHook.HalfLock (phaseAt)
+
+/-- **C02.publications_linearize** — in every reachable state, a step either leaves the current
+contents alone, or is a `data.swap` by a storing mutator and replaces them by one
+sequential-specification step (`Pub`) of the contents current at that very moment. -/
+theorem C02_publications_linearize {env : Env} {ye : Nat} {disp : List (Int × Disp)}
+    {scripts : List (List Op)} {s s' : Sys} {t : Nat} {out : StepOut}
+    (hr : Reachable env ye disp scripts s) (hs : step env ye s t = some (s', out)) :
+    (cur s' = cur s ∧ ∀ l n old, out.ev ≠ .hd (.swap l n old)) ∨
+    (∃ n res, out.ev = .hd (.swap "data" n s.hd.data) ∧ Pub env (cur s) (cur s') res) := by
+  have hI := inv6_reachable hr
+  cases hth : s.threads[t]? with
+  | none => unfold step at hs; simp [hth] at hs
+  | some th =>
+    rcases cur_step hI hth (step6_of hI hth hs) with h | ⟨n, res, h1, _, h2, _⟩
+    · exact Or.inl h
+    · exact Or.inr ⟨n, res, h1, h2⟩
+
+/-- **C02.delivery_pins_current** — the step at which a delivery loads `data` fixes its plan: the
+action list, in order, of the signal's slot in the contents current at that instant (and of no
+other signal). -/
+theorem C02_delivery_pins_current {env : Env} {ye : Nat} {disp : List (Int × Disp)}
+    {scripts : List (List Op)} {s s' : Sys} {t : Nat} {th : Thread} {out : StepOut} {sig : Int} {v : Nat}
+    (hr : Reachable env ye disp scripts s) (hth : s.threads[t]? = some th) (hpc : th.pc = .dData sig)
+    (hs : step env ye s t = some (s', out)) (hev : out.ev = .hd (.load "data" v)) :
+    ∃ pv, s'.threads[t]? = some { th with pc := .dPlan sig pv (tagsFor (cur s) sig) } := by
+  have hI := inv6_reachable hr
+  have ht := (List.getElem?_eq_some_iff.1 hth).1
+  have h6 := step6_of hI hth hs
+  cases h6 with
+  | dataPin sg hd' pf hpc' hcF mv =>
+    rw [hpc] at hpc'; injection hpc' with hsg; subst hsg
+    refine ⟨(planOf (cur s) ((lookupN pf s.cf).getD none) sig).1, ?_⟩
+    rw [setT_get _ _ _ (by simpa using ht), planOf_snd]
+  | dataStep sg hd' p o pf hpc' hcF mv hp ho =>
+    exfalso
+    simp only at hev
+    rcases ho with ⟨w, rfl⟩ | ⟨l, w, rfl⟩
+    · injection hev with hev; injection hev with h1 h2; simp at h1
+    · injection hev with hev; cases hev
+  | _ => simp_all
+
+/-- **C02.runs_pinned_list** — at every later moment of the delivery what remains to be run is a
+suffix of the pinned snapshot's action list for this signal (one action is consumed per `run`
+step, `C02_runs_plan`); the snapshot is live and its recorded contents immutable. -/
+theorem C02_runs_pinned_list {env : Env} {ye : Nat} {disp : List (Int × Disp)}
+    {scripts : List (List Op)} {s : Sys} {t : Nat} {th : Thread} {sig : Int} {pv : Option Disp} {tags : List Nat}
+    (hr : Reachable env ye disp scripts s) (hth : s.threads[t]? = some th) (hpc : th.pc = .dPlan sig pv tags) :
+    ∃ p d pre, phaseAt s.hd t = .rHold p 0 ∧ lookupN p s.cd = some d ∧ pre ++ tags = tagsFor d sig :=
+  let ⟨p, d, pre, h1, _, h2, h3⟩ := C01_registry_runs_pinned hr hth hpc
+  ⟨p, d, pre, h1, h2, h3⟩
+
+/-- recorded contents of a live snapshot never change (copy-on-write) -/
+theorem C02_contents_immutable {env : Env} {ye : Nat} {disp : List (Int × Disp)}
+    {scripts : List (List Op)} {s s' : Sys} {t x : Nat} {out : StepOut}
+    (hr : Reachable env ye disp scripts s) (hs : step env ye s t = some (s', out)) (hx : x ∈ s.hd.live) :
+    lookupN x s'.cd = lookupN x s.cd := by
+  have hI := inv6_reachable hr
+  cases hth : s.threads[t]? with
+  | none => unfold step at hs; simp [hth] at hs
+  | some th => exact (step6_frame (step6_of hI hth hs)).cd_live hI hx
+
+
+/-! ### non-vacuity of the `Reachable` hypotheses: the demo runs are reachable states, and one of
+them has a delivery in the middle of its plan while a mutator is inside its store -/
+
+theorem reachable_runSched (env : Env) (disp : List (Int × Disp)) (scripts : List (List Op)) (sched : List Nat)
+    (s : Sys) (hr : Reachable env 16 disp scripts s) : Reachable env 16 disp scripts (runSched env s sched).1 := by
+  induction sched generalizing s with
+  | nil => exact hr
+  | cons t rest ih =>
+    simp only [runSched]
+    cases hs : step env 16 s t with
+    | none => exact hr
+    | some r => obtain ⟨s', o⟩ := r; exact ih s' (Reachable.step hr hs)
+
+example : Reachable demoEnv 16 [] [[.register true 10 100, .register true 10 101], [.deliver 10]]
+    (runSched demoEnv demoSys (List.replicate 24 0 ++ List.replicate 7 1 ++ List.replicate 6 0)).1 :=
+  reachable_runSched _ _ _ _ _ Reachable.init
+
+/-- in that state thread 1 is about to run action 100 of the snapshot it pinned while thread 0 is
+past the allocation of the snapshot that also contains 101 -/
+example : ((runSched demoEnv demoSys (List.replicate 24 0 ++ List.replicate 7 1 ++ List.replicate 6 0)).1.threads.map
+    (fun th => match th.pc with | .dPlan _ _ tags => tags | .mRunD .. => [0] | _ => [])) = [[0], [100]] := by decide
 
 end SigHook.RegConc
